@@ -15,16 +15,27 @@ def run(tier, seed):
     cov = {}
     states = trans = traces = 0
     samples = []
-    for net, cfg, prague in (("regtest", "TraceRef.cfg", 0), ("signet", "TraceRef_signet.cfg", 275000)):
-        ss, r = tracecheck.gen_schedules("c19_" + net, "probe", n, seed + (0 if net == "regtest" else 5), maxlen=42, prague=prague)
+    # the third configuration starts 6 blocks below signet's Prague activation height and crosses it (Brc20Ref.Base)
+    nfork = 8 if tier == "quick" else 64
+    for net, cfg, prague, base, label, cnt in (("regtest", "TraceRef.cfg", 0, 0, "regtest", n), ("signet", "TraceRef_signet.cfg", 275000, 0, "signet", n),
+                                               ("signet", "TraceRef_signet_fork.cfg", 275000, 274994, "signet_fork", nfork),
+                                               # mainnet: Prague from 923 369; transaction ids are the signing hash below 929 000
+                                               ("mainnet", "TraceRef_mainnet_prague.cfg", 923369, 923363, "mainnet_prague", nfork // 4),
+                                               ("mainnet", "TraceRef_mainnet_rlp.cfg", 923369, 928994, "mainnet_rlp", nfork // 4)):
+        ss, r = tracecheck.gen_schedules("c19_" + label, "probe", cnt, seed + (0 if net == "regtest" else 5) + (9 if base else 0), maxlen=42, prague=prague, base=base)
         import directed
-        ss = directed.c19_family(tier) + ss
+        if not base:
+            ss = directed.c19_family(tier) + ss
+        else:
+            ss = directed.c19_fork_family(base, tier) + ss
         tracecheck.VALIDATE_CFG[0] = cfg
+        tracecheck.BASE[0] = base
         try:
-            c = tracecheck.run_corpus("C19", "c19_" + net, ss, v, shards=8, net=net, light=True)
+            c = tracecheck.run_corpus("C19", "c19_" + label, ss, v, shards=8, net=net, light=True)
         finally:
             tracecheck.VALIDATE_CFG[0] = "TraceRef.cfg"
-        cov[net] = c
+            tracecheck.BASE[0] = 0
+        cov[label] = c
         states += r["generated"] + c["tlc_states"]
         trans += c["events_validated"]
         traces += c["runs_fully_validated"]
@@ -35,7 +46,7 @@ def run(tier, seed):
            "checker_cmd": "tlc -simulate GenRef.tla (Focus probe) ; vh play <net> ; tlc TraceRef.tla (PragueFrom per network)"}
     rc = v.finish()
     common.write_evidence("C19", tier, seed, "model_checking", out,
-                          ["low heights only: Prague activation heights of signet/mainnet are constants of the model, not crossed",
+                          ["activation heights are crossed from 6 blocks below: signet 275 000, mainnet 923 369 (Prague) and 929 000 (transaction-id regime)",
                            "that deposits/withdrawals carry a zero txid is unobservable (no user code runs in them); their sender is checked"],
                           time.time() - t0, len(v.new))
     return rc
